@@ -43,6 +43,7 @@ template <class T>
 static Vec4<T> * Vec4_object_constructor1(const object &obj)
 {
     Vec4<T> res;
+    extract<Vec4<T> >       e0(obj);
     extract<Vec4<int> >     e1(obj);
     extract<Vec4<float> >   e2(obj);
     extract<Vec4<double> >  e3(obj);
@@ -50,7 +51,8 @@ static Vec4<T> * Vec4_object_constructor1(const object &obj)
     extract<double>         e5(obj);
     extract<list>           e6(obj);
     
-    if(e1.check())      { res = e1(); }
+    if(e0.check())      { res = e0(); }
+    else if(e1.check()) { res = e1(); }
     else if(e2.check()) { res = e2(); }
     else if(e3.check()) { res = e3(); }
     else if(e4.check())
@@ -747,6 +749,7 @@ template <class T>
 static bool
 equalWithAbsErrorObj(const Vec4<T> &v, const object &obj1, const object &obj2)
 {    
+    extract<Vec4<T> >       e0(obj1);
     extract<Vec4<int> >    e1(obj1);
     extract<Vec4<float> >  e2(obj1);
     extract<Vec4<double> > e3(obj1);
@@ -755,7 +758,8 @@ equalWithAbsErrorObj(const Vec4<T> &v, const object &obj1, const object &obj2)
     extract<double>        e5(obj2);
     
     Vec4<T> res;
-    if(e1.check())      { res = e1(); }
+    if(e0.check())      { res = e0(); }
+    else if(e1.check()) { res = e1(); }
     else if(e2.check()) { res = e2(); }
     else if(e3.check()) { res = e3(); }
     else if(e4.check())
@@ -783,6 +787,7 @@ template <class T>
 static bool
 equalWithRelErrorObj(const Vec4<T> &v, const object &obj1, const object &obj2)
 {    
+    extract<Vec4<T> >       e0(obj1);
     extract<Vec4<int> >    e1(obj1);
     extract<Vec4<float> >  e2(obj1);
     extract<Vec4<double> > e3(obj1);
@@ -791,7 +796,8 @@ equalWithRelErrorObj(const Vec4<T> &v, const object &obj1, const object &obj2)
     extract<double>        e5(obj2);
     
     Vec4<T> res;
-    if(e1.check())      { res = e1(); }
+    if(e0.check())      { res = e0(); }
+    else if(e1.check()) { res = e1(); }
     else if(e2.check()) { res = e2(); }
     else if(e3.check()) { res = e3(); }
     else if(e4.check())
